@@ -47,7 +47,8 @@ Check(st) ==
 Init == /\ phase = "gen"
         /\ \E a \in DataSet :
              \/ store = [regions |-> Regions, data |-> <<a>>]
-             \/ MaxData >= 2 /\ \E b \in DataSet : store = [regions |-> Regions, data |-> <<a, b>>]
+             \/ MaxData >= 2 /\ \E b \in {d \in DataSet : Len(d.items) = 1 /\ d.items[1][1] # 0 /\ Len(d.ri) <= 2} :
+                  store = [regions |-> Regions, data |-> <<a, b>>]
 Next == phase = "gen" /\ phase' = Check(store) /\ UNCHANGED store
 Sound == phase \in {"gen", "ok"}
 =============================================================================
